@@ -1,4 +1,5 @@
 import RpycModel.Conc.SendQ.Model
 import RpycModel.Conc.SendQ.Lemmas
 import RpycModel.Conc.SendQ.Progress
+import RpycModel.Conc.SendQ.OsOrder
 /-! L8 `SendQ` — the send side of a shared connection (C12): model + invariants. -/
